@@ -692,6 +692,9 @@ def run_history_real(world, h, ctx=None, judge=True):
                     iters[op[1]].close()
                     if live:
                         spec.hit("close:second-connection(seq diverged)" if world.next_conn != nc else "close:same-proxy")
+                        if judge and iter_stream[op[1]] in set(e[0] for e in world.table()):
+                            bad("seq:close-not-forwarded", "it.close() on client iterator %d (proxy connected) returned but the server "
+                                "still remembers its stream %d" % (op[1], iter_stream[op[1]]))
                     res = "none"
                 elif k == "pcall":
                     proxies[op[1]].ping()
